@@ -11,6 +11,7 @@ import (
 	"testing"
 	"testing/synctest"
 	"time"
+	"unicode/utf8"
 
 	"nhooyr.io/websocket"
 	"pgregory.net/rapid"
@@ -29,16 +30,49 @@ type c06Case struct {
 	Calls     string `json:"calls,omitempty"`
 	Part      int    `json:"part,omitempty"`      // partial-*: how many bytes of the 200-byte message the application reads before Close
 	MB        bool   `json:"multibyte,omitempty"` // the reason consists of two-byte characters (ReasonLen counts bytes)
+	Raw       bool   `json:"raw_bytes,omitempty"` // the reason is not valid UTF-8 (stray 0xff / 0x80 bytes, a character cut in two): the library passes reasons through as bytes
 }
 
 // c06MultiByte switches c06Reason to multi-byte reasons for the current case (cases run one at a time).
 var c06MultiByte bool
+
+// c06RawBytes switches c06Reason to reasons that are not valid UTF-8.
+var c06RawBytes bool
+
+// c06ReasonRaw: n bytes that are not valid UTF-8 (for n >= 1): a text that ends inside a
+// three-byte character, with stray 0xff and continuation bytes in between.
+func c06ReasonRaw(n int, code int) string {
+	if code < 0 {
+		code = -code
+	}
+	b := make([]byte, 0, n+3)
+	for i := 0; len(b) < n; i++ {
+		switch (i + code) % 4 {
+		case 0:
+			b = append(b, byte('a'+(i+code)%26))
+		case 1:
+			b = append(b, 0xff)
+		case 2:
+			b = append(b, 0xe2, 0x82, 0xac)
+		case 3:
+			b = append(b, 0x80)
+		}
+	}
+	b = b[:n]
+	if n > 0 && utf8.Valid(b) {
+		b[n-1] = 0xe2 // a character cut short by the length limit
+	}
+	return string(b)
+}
 
 var c06PartialTimings = []string{"partial-fin", "partial-frag1", "partial-frag2", "unread-queued", "writer-open-compressed", "slow-peer"}
 
 // c06ReasonMB: a reason of exactly n BYTES made of two-byte characters (and one ASCII
 // letter when n is odd): the 123-byte limit of RFC 6455 counts bytes, not characters.
 func c06ReasonMB(n int, code int) string {
+	if code < 0 {
+		code = -code
+	}
 	var sb strings.Builder
 	if n%2 == 1 {
 		sb.WriteByte(byte('a' + code%26))
@@ -50,6 +84,12 @@ func c06ReasonMB(n int, code int) string {
 }
 
 func c06Reason(n int, code int) string {
+	if code < 0 {
+		code = -code
+	}
+	if c06RawBytes {
+		return c06ReasonRaw(n, code)
+	}
 	if c06MultiByte {
 		return c06ReasonMB(n, code)
 	}
@@ -485,6 +525,8 @@ func TestC06(t *testing.T) {
 		codes = append(codes, c)
 	}
 	codes = append(codes, -1, -1000, 65536, 70000, 1<<31)
+	// out-of-range values whose low 16 bits form a sendable code
+	codes = append(codes, 65536+1000, 65536+1001, 65536+3000, 65536+4999, 2*65536+1011, 1000-65536, 4000-65536, 1<<20+1000, 1<<32+1000)
 	one := func(c c06Case) {
 		var msg string
 		synctest.Test(t, func(t *testing.T) { msg = runC06One(t, c) })
@@ -539,6 +581,13 @@ func TestC06(t *testing.T) {
 			for n := 118; n <= 130; n++ {
 				one(c06Case{Kind: "local", Client: cl, Code: 1000, ReasonLen: n, Timing: "idle", MB: true})
 			}
+			for _, n := range []int{1, 2, 3, 60, 122, 123, 124} {
+				one(c06Case{Kind: "local", Client: cl, Code: 1000, ReasonLen: n, Timing: "read-pending", Raw: true})
+				if n <= 123 {
+					one(c06Case{Kind: "recv", Client: cl, Code: 4000, ReasonLen: n, Timing: "read-pending", Raw: true})
+					one(c06Case{Kind: "recv", Client: cl, Code: 1001, ReasonLen: n, Timing: "read-after", Raw: true})
+				}
+			}
 			for _, code := range []int{1000, 1001, 4001} {
 				one(c06Case{Kind: "recv", Client: cl, Code: code, ReasonLen: 7, Timing: "read-deadline-echo-stalled"})
 			}
@@ -558,13 +607,13 @@ func TestC06(t *testing.T) {
 			}
 		}
 	}
-	rec.Exhaustive("local Close over all 65536 wire codes + 5 out-of-range values", true)
+	rec.Exhaustive("local Close over all 65536 wire codes + 14 out-of-range values", true)
 	rec.Exhaustive("received Close frame over all 65536 codes", true)
 }
 
 func runC06One(t fataler, c c06Case) string {
-	c06MultiByte = c.MB
-	defer func() { c06MultiByte = false }()
+	c06MultiByte, c06RawBytes = c.MB, c.Raw
+	defer func() { c06MultiByte, c06RawBytes = false, false }()
 	switch c.Kind {
 	case "local":
 		return runC06Local(t, c)
@@ -584,6 +633,7 @@ func TestC06Mixed(t *testing.T) {
 			rapid.SampledFrom([]int{1000, 1001, 1002, 1003, 1007, 1008, 1009, 1010, 1011, 1012, 1013, 1014, 3000, 3999, 4000, 4999}),
 			rapid.IntRange(3000, 4999),
 			rapid.SampledFrom([]int{0, 999, 1004, 1005, 1006, 1015, 1016, 2999, 5000, 65535}),
+			rapid.SampledFrom([]int{65536 + 1000, 65536 + 3000, 3*65536 + 4999, 1000 - 65536, 1<<20 + 1001, 65536 + 1005, 65536}),
 		).Draw(rt, "code")
 		rl := rapid.SampledFrom([]int{0, 1, 2, 50, 122, 123, 124, 125, 130}).Draw(rt, "reasonLen")
 		client := rapid.Bool().Draw(rt, "closerIsClient")
@@ -599,6 +649,9 @@ func TestC06Mixed(t *testing.T) {
 			if rl > 123 {
 				c.ReasonLen = 123
 			}
+			if c.Code > 65535 || c.Code < 0 {
+				c.Code = 1000 // a frame carries 16 bits
+			}
 		case "liblib":
 			c.Timing = rapid.SampledFrom([]string{"read-pending", "read-after", "after-msg"}).Draw(rt, "timing")
 		case "calls":
@@ -610,9 +663,14 @@ func TestC06Mixed(t *testing.T) {
 			c.Calls = sb.String()
 			c.Timing = "idle"
 		}
-		c.MB = rapid.IntRange(0, 2).Draw(rt, "multiByteReason") == 0
-		c06MultiByte = c.MB
-		defer func() { c06MultiByte = false }()
+		switch rapid.IntRange(0, 5).Draw(rt, "reasonBytes") {
+		case 0, 1:
+			c.MB = true
+		case 2:
+			c.Raw = true
+		}
+		c06MultiByte, c06RawBytes = c.MB, c.Raw
+		defer func() { c06MultiByte, c06RawBytes = false, false }()
 		var msg string
 		rapid.SyncTest(rt, func(rt *rapid.T) {
 			switch kind {
@@ -625,7 +683,7 @@ func TestC06Mixed(t *testing.T) {
 			}
 		})
 		nt := (ref.Sendable(c.Code) && c.ReasonLen > 0) || !ref.Sendable(c.Code) || c.ReasonLen > 123 || kind == "calls"
-		rec.Case(nt, fmt.Sprintf("%s/%s/%s/%v/%s/%s/%v", c.Kind, codeClass(c.Code), reasonClass(c.ReasonLen), c.Client, c.Timing, c.Calls, c.MB),
+		rec.Case(nt, fmt.Sprintf("%s/%s/%s/%v/%s/%s/%v", c.Kind, codeClass(c.Code), reasonClass(c.ReasonLen), c.Client, c.Timing, c.Calls, c.MB || c.Raw),
 			c.Kind+":"+codeClass(c.Code), c.Kind+":"+c.Timing)
 		if kind == "liblib" || kind == "calls" {
 			rec.Sample(c)
